@@ -107,12 +107,72 @@ func ruleErrorsBeforeData(fnNames ...string) ruleFn {
 				n++
 				guarded := false
 				var failOK bool
+				// where the loaded data is used (the load itself may stand before the test:
+				// `data, errs := resp.Data, resp.Errors; if len(errs) != 0 { … }; use(data)`)
+				useBlocks := []*ssa.BasicBlock{}
+				if refs := rd.val.Referrers(); refs != nil {
+					for _, ref := range *refs {
+						if _, isDbg := ref.(*ssa.DebugRef); isDbg {
+							continue
+						}
+						if bo, ok := ref.(*ssa.BinOp); ok && (bo.Op == token.EQL || bo.Op == token.NEQ) {
+							continue
+						}
+						useBlocks = append(useBlocks, ref.Block())
+					}
+				}
+				if len(useBlocks) == 0 {
+					useBlocks = append(useBlocks, rd.ins.Block())
+				}
+				coversUses := func(side *ssa.BasicBlock) bool {
+					for _, ub := range useBlocks {
+						if !(side == ub || side.Dominates(ub)) {
+							return false
+						}
+					}
+					return true
+				}
+				// a predicate of the module that is handed the response and answers false only
+				// when its error list is empty (`if se.isFinal(resp) { return resp }`)
+				for _, i2 := range allInstrs(fn) {
+					iff, ok := i2.(*ssa.If)
+					if !ok {
+						continue
+					}
+					cond, okSide, failSide := iff.Cond, iff.Block().Succs[1], iff.Block().Succs[0]
+					if u, ok := cond.(*ssa.UnOp); ok && u.Op == token.NOT {
+						cond, okSide, failSide = u.X, failSide, okSide
+					}
+					call, ok := cond.(*ssa.Call)
+					if !ok {
+						continue
+					}
+					sc := call.Call.StaticCallee()
+					if sc == nil || !inModule(sc) || sc.Blocks == nil {
+						continue
+					}
+					for ai, a := range call.Call.Args {
+						if !sameBase(unwrap(a), rd.base) || ai >= len(sc.Params) {
+							continue
+						}
+						if falseOnlyWhenNoErrors(sc, sc.Params[ai]) && len(okSide.Preds) == 1 && coversUses(okSide) {
+							guarded = true
+							if handsOnResponse(failSide, rd.base) {
+								failOK = true
+							}
+						}
+					}
+				}
 				for _, er := range reads {
 					if er.field != "Errors" || !sameBase(er.base, rd.base) {
 						continue
 					}
 					for _, t := range failureTests(er.val) {
-						if len(t.ok.Preds) == 1 && (t.ok == rd.ins.Block() || t.ok.Dominates(rd.ins.Block())) {
+						// `errors` decoded from JSON may be `[]`: a nil test is not the length test
+						if bo, ok := t.iff.Cond.(*ssa.BinOp); ok && (isNilConst(bo.X) || isNilConst(bo.Y)) {
+							continue
+						}
+						if len(t.ok.Preds) == 1 && coversUses(t.ok) {
 							guarded = true
 							if sw, _ := r.swallowedWith(er.val, t, rd.base); !sw {
 								failOK = true
@@ -131,7 +191,7 @@ func ruleErrorsBeforeData(fnNames ...string) ruleFn {
 								if u, ok := cond.(*ssa.UnOp); ok && u.Op == token.NOT {
 									cond, side = u.X, iff.Block().Succs[1]
 								}
-								if len(side.Preds) != 1 || !(side == rd.ins.Block() || side.Dominates(rd.ins.Block())) {
+								if len(side.Preds) != 1 || !coversUses(side) {
 									continue
 								}
 								if trueOnlyAfter(cond, t.ok, 0) {
@@ -180,77 +240,100 @@ func ruleStatusCheck(r *Run) {
 	if fn == nil {
 		return
 	}
-	var tests []*ssa.If
-	weight := map[*ssa.If]int{}
+	isStatusLoad := func(v ssa.Value) bool {
+		ld, ok := v.(*ssa.UnOp)
+		if !ok || ld.Op != token.MUL {
+			return false
+		}
+		fa, ok := ld.X.(*ssa.FieldAddr)
+		if !ok {
+			return false
+		}
+		f := fieldOf(fa)
+		return f != nil && f.Name() == "StatusCode" && namedOf(fa.X.Type()) == "net/http.Response"
+	}
+	// what a set of comparisons says about the status: a lower bound of 200, an upper bound of
+	// 299 (written with either neighbour constant), or the hundreds digit compared with 2
+	type facts struct{ lower, upper, div bool }
+	scan := func(f *ssa.Function, isStatus func(ssa.Value) bool, only ssa.Value) facts {
+		var out facts
+		for _, ins := range allInstrs(f) {
+			bo, ok := ins.(*ssa.BinOp)
+			if !ok || (only != nil && ssa.Value(bo) != only) {
+				continue
+			}
+			x, y, op := bo.X, bo.Y, bo.Op
+			if _, isC := x.(*ssa.Const); isC {
+				x, y = y, x
+				switch op {
+				case token.LSS:
+					op = token.GTR
+				case token.GTR:
+					op = token.LSS
+				case token.LEQ:
+					op = token.GEQ
+				case token.GEQ:
+					op = token.LEQ
+				}
+			}
+			switch {
+			case isStatus(x) && isIntConst(y, 200) && (op == token.LSS || op == token.GEQ),
+				isStatus(x) && isIntConst(y, 199) && (op == token.LEQ || op == token.GTR):
+				out.lower = true
+			case isStatus(x) && isIntConst(y, 299) && (op == token.GTR || op == token.LEQ),
+				isStatus(x) && isIntConst(y, 300) && (op == token.GEQ || op == token.LSS):
+				out.upper = true
+			}
+			if q, ok := x.(*ssa.BinOp); ok && q.Op == token.QUO && isStatus(q.X) && isIntConst(q.Y, 100) && isIntConst(y, 2) && (op == token.EQL || op == token.NEQ) {
+				out.div = true
+			}
+		}
+		return out
+	}
+	// the branches of sendRequest that test the status: directly, or through a predicate of the
+	// module that is handed the status code or the response
+	type test struct {
+		iff *ssa.If
+		f   facts
+	}
+	var tests []test
 	for _, ins := range allInstrs(fn) {
 		iff, ok := ins.(*ssa.If)
 		if !ok {
 			continue
 		}
-		isStatus0 := func(v ssa.Value) bool {
-			ld, ok := v.(*ssa.UnOp)
-			if !ok || ld.Op != token.MUL {
-				return false
-			}
-			fa, ok := ld.X.(*ssa.FieldAddr)
-			if !ok {
-				return false
-			}
-			f := fieldOf(fa)
-			return f != nil && f.Name() == "StatusCode" && namedOf(fa.X.Type()) == "net/http.Response"
-		}
-		// the range test may live in a predicate of this module that receives the status code:
-		// `if !isSuccessStatus(resp.StatusCode)` — count the comparisons the predicate makes on
-		// that parameter
 		cond := iff.Cond
 		if u, ok := cond.(*ssa.UnOp); ok && u.Op == token.NOT {
 			cond = u.X
 		}
-		if c, ok := cond.(*ssa.Call); ok {
-			if pred := c.Call.StaticCallee(); pred != nil && inModule(pred) && pred.Blocks != nil {
-				for i, a := range c.Call.Args {
-					if !isStatus0(a) || i >= len(pred.Params) {
-						continue
-					}
-					cmp, eq := 0, 0
-					for _, pi := range allInstrs(pred) {
-						if bo, ok := pi.(*ssa.BinOp); ok && (bo.X == ssa.Value(pred.Params[i]) || bo.Y == ssa.Value(pred.Params[i])) {
-							switch bo.Op {
-							case token.LSS, token.GTR, token.LEQ, token.GEQ:
-								cmp++
-							case token.EQL, token.NEQ:
-								eq++
-							}
-						}
-					}
-					if cmp >= 2 || eq >= 1 {
-						tests = append(tests, iff)
-						weight[iff] = 2
-					}
+		switch c := cond.(type) {
+		case *ssa.BinOp:
+			if f := scan(fn, isStatusLoad, c); f.lower || f.upper || f.div {
+				tests = append(tests, test{iff, f})
+			}
+		case *ssa.Call:
+			pred := c.Call.StaticCallee()
+			if pred == nil || !inModule(pred) || pred.Blocks == nil {
+				continue
+			}
+			for i, a := range c.Call.Args {
+				if i >= len(pred.Params) {
+					continue
 				}
-			}
-			continue
-		}
-		bo, ok := iff.Cond.(*ssa.BinOp)
-		if !ok {
-			continue
-		}
-		isStatus := func(v ssa.Value) bool {
-			ld, ok := v.(*ssa.UnOp)
-			if !ok || ld.Op != token.MUL {
-				return false
-			}
-			fa, ok := ld.X.(*ssa.FieldAddr)
-			if !ok {
-				return false
-			}
-			f := fieldOf(fa)
-			return f != nil && f.Name() == "StatusCode" && namedOf(fa.X.Type()) == "net/http.Response"
-		}
-		if isStatus(bo.X) || isStatus(bo.Y) {
-			switch bo.Op {
-			case token.LSS, token.GTR, token.LEQ, token.GEQ, token.NEQ, token.EQL:
-				tests = append(tests, iff)
+				param := pred.Params[i]
+				switch {
+				case isStatusLoad(a):
+					tests = append(tests, test{iff, scan(pred, func(v ssa.Value) bool { return v == ssa.Value(param) }, nil)})
+				case strings.HasSuffix(a.Type().String(), "net/http.Response"):
+					tests = append(tests, test{iff, scan(pred, func(v ssa.Value) bool {
+						ld, ok := v.(*ssa.UnOp)
+						if !ok || ld.Op != token.MUL {
+							return false
+						}
+						fa, ok := ld.X.(*ssa.FieldAddr)
+						return ok && fieldOf(fa) != nil && fieldOf(fa).Name() == "StatusCode" && fa.X == ssa.Value(param)
+					}, nil)})
+				}
 			}
 		}
 	}
@@ -266,22 +349,21 @@ func ruleStatusCheck(r *Run) {
 			continue
 		}
 		nSucc++
-		nDom := 0
+		var have facts
 		for _, t := range tests {
-			for _, s := range t.Block().Succs {
+			for _, s := range t.iff.Block().Succs {
 				if len(s.Preds) == 1 && (s == ret.Block() || s.Dominates(ret.Block())) {
-					nDom++
-					if weight[t] == 2 {
-						nDom++
-					}
+					have.lower = have.lower || t.f.lower
+					have.upper = have.upper || t.f.upper
+					have.div = have.div || t.f.div
 				}
 			}
 		}
 		site := r.P.pos(retPos(ret))
-		if nDom >= 2 || (nDom == 1 && len(tests) == 1 && isEqNeq(tests[0])) {
-			r.OK(rule, name, "success return", site, "dominated by the HTTP status range test")
+		if (have.lower && have.upper) || have.div {
+			r.OK(rule, name, "success return", site, "dominated by a test of the HTTP status against both ends of the 2xx range (200 and 299/300, or status/100 == 2)")
 		} else {
-			r.Bad(rule, name, "success return", site, "sendRequest can report success without having compared resp.StatusCode against both ends of the 2xx range: a non-2xx answer would be treated as a result")
+			r.Bad(rule, name, "success return", site, "sendRequest can report success without having compared resp.StatusCode against both ends of the 2xx range (200 below, 299 above): a non-2xx answer would be treated as a result")
 		}
 	}
 	r.AtLeast(rule, "success returns of sendRequest", nSucc, 1)
@@ -696,4 +778,61 @@ func handsOnResponse(b *ssa.BasicBlock, base ssa.Value) bool {
 		return len(b.Succs) > 0
 	}
 	return walk(b)
+}
+
+// falseOnlyWhenNoErrors: the predicate (a module function that is handed a response) can answer
+// false only after the "no errors" side of a length test of that response's Errors was taken.
+func falseOnlyWhenNoErrors(pred *ssa.Function, param *ssa.Parameter) bool {
+	for _, rd := range respReads(pred) {
+		if rd.field != "Errors" || unwrap(rd.base) != ssa.Value(param) {
+			continue
+		}
+		for _, t := range failureTests(rd.val) {
+			if bo, ok := t.iff.Cond.(*ssa.BinOp); ok && (isNilConst(bo.X) || isNilConst(bo.Y)) {
+				continue
+			}
+			if len(t.ok.Preds) != 1 {
+				continue
+			}
+			all := true
+			for _, ret := range returnsOf(pred) {
+				if !falseOnlyAfter(retVals(ret)[0], t.ok, 0) {
+					all = false
+				}
+			}
+			if all {
+				return true
+			}
+		}
+	}
+	return false
+}
+
+// falseOnlyAfter: the dual of trueOnlyAfter.
+func falseOnlyAfter(v ssa.Value, ok *ssa.BasicBlock, depth int) bool {
+	if depth > 6 {
+		return false
+	}
+	switch x := v.(type) {
+	case *ssa.Const:
+		return x.Value != nil && x.Value.ExactString() == "true"
+	case *ssa.Phi:
+		for i, e := range x.Edges {
+			p := x.Block().Preds[i]
+			if c, isC := e.(*ssa.Const); isC && c.Value != nil && c.Value.ExactString() == "true" {
+				continue
+			}
+			if p == ok || ok.Dominates(p) {
+				continue
+			}
+			if !falseOnlyAfter(e, ok, depth+1) {
+				return false
+			}
+		}
+		return true
+	case ssa.Instruction:
+		b := x.Block()
+		return b == ok || ok.Dominates(b)
+	}
+	return false
 }
